@@ -320,26 +320,41 @@ func skObj(km *keyMat) map[string]string {
 	return map[string]string{"d": km.D, "p": km.P, "q": km.Q}
 }
 
-// sign executes one real Sign call and records it. Returns the signature (nil on failure).
-func (r *recorder) sign(c cfg, km *keyMat, s tink.Signer, msg []byte) []byte {
+// signed is one real Sign call: the slice Tink returned (kept, NOT copied: a later Sign on the same signer must
+// not change it), its content at return time, and the outcome.
+type signed struct {
+	msg, sig []byte // sig: the very slice returned by Sign
+	atReturn string // hex of sig at the moment Sign returned
+	err      bool
+	panicked bool
+	panicVal any
+}
+
+func doSign(s tink.Signer, msg []byte) signed {
 	var sig []byte
 	var err error
 	p, pv := vt.Try(func() { sig, err = s.Sign(msg) })
+	return signed{msg: msg, sig: sig, atReturn: vt.Hex(sig), err: err != nil, panicked: p, panicVal: pv}
+}
+
+// sign records a Sign call: `sig` is what Sign returned, `held` what the caller's slice contains now (after the
+// later Sign calls of the same signer). Returns a private copy of the signature as returned (nil on failure).
+func (r *recorder) sign(c cfg, km *keyMat, h signed) []byte {
 	e := c.ev("sign")
 	r.pkFields(e, c, vt.Unhex(km.Pub))
 	e["kind"], e["origin"] = "sign", "tink"
-	e["msg"], e["sig"] = vt.Hex(msg), vt.Hex(sig)
-	e["err"] = err != nil
-	e["panic"] = p
+	e["msg"], e["sig"], e["held"] = vt.Hex(h.msg), h.atReturn, vt.Hex(h.sig)
+	e["err"] = h.err
+	e["panic"] = h.panicked
 	e["sk"] = skObj(km)
-	if p {
-		e["panicVal"] = fmt.Sprint(pv)
+	if h.panicked {
+		e["panicVal"] = fmt.Sprint(h.panicVal)
 	}
 	r.w.Emit(e)
-	if err != nil || p {
+	if h.err || h.panicked {
 		return nil
 	}
-	return sig
+	return vt.Unhex(h.atReturn)
 }
 
 // verify executes one real Verify call and records Tink's verdict.
@@ -1339,9 +1354,15 @@ func runAll(keys []keyMat, answers map[int]answer, w *vt.Writer, full bool) {
 			}
 		}
 		// direction Tink -> reference: Tink signs, the reference must verify; then Tink verifies mutations
-		var prevSig, prevMsg []byte
+		// (all Sign calls of the unit first: what Sign returned earlier must survive the later calls)
+		var hs []signed
 		for _, m := range u.msgs {
-			sig := rec.sign(c, km, s, m)
+			hs = append(hs, doSign(s, m))
+		}
+		var prevSig, prevMsg []byte
+		for _, h := range hs {
+			m := h.msg
+			sig := rec.sign(c, km, h)
 			if sig == nil {
 				continue
 			}
@@ -1520,7 +1541,9 @@ func replay(path string, w *vt.Writer) {
 		if err != nil {
 			vt.Fatal("replay: cannot construct signer: %v", err)
 		}
-		rec.sign(c, km, s, vt.Unhex(str("msg")))
+		h := doSign(s, vt.Unhex(str("msg")))
+		doSign(s, cat(vt.Unhex(str("msg")), []byte("another message"))) // a later call must not touch the earlier result
+		rec.sign(c, km, h)
 	default:
 		vt.Fatal("replay: unsupported event %q", str("ev"))
 	}
